@@ -155,7 +155,7 @@ static void dump_accessors(std::ostringstream &o, const char *msg, size_t n)
         rtosc_arg_val_t av = rtosc_itr_next(&it);
         if(!first) o << ",";
         first = false; ++cnt;
-        o << (char)av.type << show_arg(msg, av.type, av.val);
+        { char hb[4]; snprintf(hb, sizeof hb, "%02x", (unsigned char)av.type); o << hb << ":" << show_arg(msg, av.type, av.val); }
     }
     if(first) o << "-";
     if(n) o << " P=" << (inside ? "ok" : "out");
